@@ -2,6 +2,8 @@ package gosym
 
 import (
 	"fmt"
+	"runtime"
+	"runtime/debug"
 	"go/types"
 	"os"
 	"strings"
@@ -47,6 +49,9 @@ func Load(repoDir string) (*Engine, error) {
 	}
 	prog, _ := ssautil.AllPackages(pkgs, ssa.InstantiateGenerics)
 	prog.Build()
+	// The SSA form of the standard library is a large, long-lived heap; collect rarely.
+	runtime.GC()
+	debug.SetGCPercent(400)
 	e := &Engine{Prog: prog, Pkgs: map[string]*ssa.Package{}, RepoDir: repoDir}
 	for _, p := range prog.AllPackages() {
 		e.Pkgs[p.Pkg.Path()] = p
